@@ -166,7 +166,7 @@ def main(chk):
                           'mp_order() is not a topological order of the dependency graph generated from its source (or the generated functions could not be run): ' + g[:80],
                           dict(info, generated_check=g, broken='Gen/MpOrder_gen.v (translator/py2gallina_mp.py on JunctionTree.mp_order)'), found_input=bool(fails))
         chk.count('generated-mp-order')
-    chk.extra['exhaustive'] = 'all labelled graphs on <= %d attributes x %s' % (kmax, 'all elimination orders (5 attributes: 12 sampled orders + default)' if chk.tier == 'thorough' else 'all orders for <=3, 6 sampled orders + default for 4')
+    chk.extra['exhaustive_part'] = 'all labelled graphs on <= %d attributes x %s' % (kmax, 'all elimination orders (5 attributes: 12 sampled orders + default)' if chk.tier == 'thorough' else 'all orders for <=3, 6 sampled orders + default for 4')
     return chk.finish(rule='exhaustive small graphs (pairwise cliques, random attribute sizes incl. 1, random orientation) x elimination orders + default; random clique sets on 2-8 attributes '
                       '(rings, stars, nested, duplicated, any order) with order modes {None, permutation, int}. Compared: node set vs the model\'s maximal elimination cliques, default order vs the '
                       'model\'s greedy order; verified checkers on the code\'s tree and schedule. Non-trivial = tree with >=2 nodes; distinct by case text.',
